@@ -136,6 +136,15 @@ func runC16(c *ev.Ctx) {
 	}
 	passBoundarySweep(c, seed)
 	generalPassSweep(c, seed)
+	if c.Lite() {
+		var keep []work
+		for i, w := range works {
+			if i%4 == 0 {
+				keep = append(keep, w)
+			}
+		}
+		works = keep
+	}
 	workers := 16
 	parallelN(workers, len(works), func(i int) {
 		sq := works[i].sq
@@ -221,6 +230,9 @@ func passBoundarySweep(c *ev.Ctx, seed uint64) {
 	if c.Thorough() {
 		nFinal = 12000
 	}
+	if c.Lite() {
+		nFinal /= 6
+	}
 	parallelN(15, 15, func(k int) {
 		// sizes chosen so that the runner's P-value is not confined to a handful of discrete values
 		nbytes := map[int]int{2: 2500, 9: 12500, 12: 2500, 13: 5000, 14: 2500}[k]
@@ -295,6 +307,9 @@ func generalPassSweep(c *ev.Ctx, seed uint64) {
 	n12, n15 := 4000, 400
 	if c.Thorough() {
 		n12, n15 = 40000, 4000
+	}
+	if c.Lite() {
+		n12, n15 = n12/6, n15/6
 	}
 	var split int64
 	var mu sync.Mutex
@@ -529,6 +544,15 @@ func runC17(c *ev.Ctx) {
 				works = append(works, work{sq, cs})
 			}
 		}
+	}
+	if c.Lite() {
+		var keep []work
+		for i, w := range works {
+			if i%5 == 0 {
+				keep = append(keep, w)
+			}
+		}
+		works = keep
 	}
 	parallel(len(works), func(i int) {
 		w := works[i]
